@@ -356,7 +356,7 @@ def run(ctx):
     drv = ctx.build_driver("c25_driver")
     model = ctx.build_model("C25", "C25/Extract.v", "c25_main.ml", "csr_model")
     t2 = time.time()
-    ncases = 2500 if ctx.tier == "quick" else 40000
+    ncases = 2500 if ctx.tier == "quick" else 25000
     cases = list(CORPUS) + exhaustive_small(ctx.tier) + [gen_line(ctx.rng, ctx.tier) for _ in range(ncases)]
     explore(ctx, drv, model, cases)
     if ctx.broken and not new_violation_found(ctx):
@@ -400,11 +400,32 @@ def split_cmds(case):
     return [c.strip() for c in case.split(" ; ")]
 
 
+BATCH = 4000
+
+
+def run_retry(ctx, exe, part):
+    """run one batch; lines without output (process killed by the harness timeout on an overloaded machine)
+    are run again one by one; if that fails too the run itself has failed (exit 2), which is not a verdict"""
+    out = ctx.run_lines(exe, part, timeout=3000, shards=16)
+    missing = [k for k, o in enumerate(out) if o.startswith("NOOUTPUT")]
+    for k in missing[:200]:
+        out[k] = ctx.run_lines(exe, [part[k]], timeout=600, shards=1)[0]
+    if any(o.startswith("NOOUTPUT") for o in out):
+        import sys
+        print("ERROR: %s produced no output for %d programs (harness timeout / machine overloaded); no verdict" % (
+            exe, sum(1 for o in out if o.startswith("NOOUTPUT"))))
+        sys.exit(2)
+    return out
+
+
 def explore(ctx, drv, model, cases, search=False):
     if drv is None or model is None:
         return
-    impl = ctx.run_lines(drv, cases, timeout=3000, shards=16)
-    mod = ctx.run_lines(model, cases, timeout=3000, shards=16)
+    impl, mod = [], []
+    for b in range(0, len(cases), BATCH):               # small batches: no shard can run into the timeout
+        part = cases[b:b + BATCH]
+        impl += run_retry(ctx, drv, part)
+        mod += run_retry(ctx, model, part)
     ctx.cov["evaluations"] += len(cases)
     ctx.cov["traces_validated_against_impl"] += len(cases)
     seen = set()
@@ -432,7 +453,7 @@ def explore(ctx, drv, model, cases, search=False):
                           "program `%s`: reading back the result of command %d (`%s`) through get()/is_canonical() ends with %s" % (
                               c, k + 1, cmds[k] if k < len(cmds) else "?", last[6:]), rep)
             ifields = ifields[:-1]
-        elif last.startswith("CRASH") or last == "HANG" or last == "UNCAUGHT" or last.startswith("NOOUTPUT"):
+        elif last.startswith("CRASH") or last == "HANG" or last == "UNCAUGHT":
             k = len(ifields) - 1
             op = cmds[k].split()[0] if k < len(cmds) else "?"
             ctx.violation("C25/%s-crash" % op,
